@@ -92,16 +92,21 @@ func legFor(property string, rng *rand.Rand, tier string) string {
 	x := rng.IntN(100)
 	switch property {
 	case "C06":
-		if x < 70 {
+		switch {
+		case x < 62:
 			return "search"
+		case x < 72:
+			return "search-tiny"
 		}
 		return "uci-real"
 	case "C07":
 		switch {
-		case x < 50:
+		case x < 45:
 			return "search"
-		case x < 85:
+		case x < 70:
 			return "search-game"
+		case x < 88:
+			return "search-tiny"
 		}
 		return "uci-real"
 	case "C08":
@@ -137,6 +142,8 @@ func generateCase(property string, tier string, run, seed uint64) (*RunCase, *ra
 		rc.Search = genSearchScenario(rng, strings.ToLower(property), thorough)
 	case "search-game":
 		rc.Search = genSearchScenario(rng, "c07game", thorough)
+	case "search-tiny":
+		rc.Search = genSearchScenario(rng, "tiny", thorough)
 	case "uci-stub", "uci-real", "uci-sweep":
 		cfg := drawUCIGenCfg(rng, rc.Leg == "uci-stub")
 		switch property {
